@@ -669,12 +669,25 @@ def evaluate_payload_template(input, context, template):
             elif arg == "false":
                 arglist[i] = False
             else:
+                """
+                Only JSON numbers are accepted. int() and float() are more
+                lenient than that, e.g. "1_000", "nan", "inf" and "+5", and
+                nan/inf are not even representable in the JSON output.
+                """
+                if not re.fullmatch(r"-?(0|[1-9][0-9]*)(\.[0-9]+)?([eE][+-]?[0-9]+)?", arg):
+                    raise IntrinsicFailure(
+                        "Intrinsic Function {}, Invalid argument {}.".format(func, arg)
+                    )
                 try:
                     arglist[i] = int(arg)
                 except ValueError:
                     try:
                         arglist[i] = float(arg)
                     except ValueError:
+                        raise IntrinsicFailure(
+                            "Intrinsic Function {}, Invalid argument {}.".format(func, arg)
+                        )
+                    if arglist[i] in (float("inf"), float("-inf")):  # e.g. 1e999
                         raise IntrinsicFailure(
                             "Intrinsic Function {}, Invalid argument {}.".format(func, arg)
                         )
